@@ -63,7 +63,7 @@ CUSTOM_STYLES = {
 }
 TITLES = (None, False, "My Title", True)
 REPRS = ("default", "template", "callable", "empty")  # "empty": the valid format string "" (every rendering is "", lines are the bare prefixes)
-JOINS = ("\n", ", ")
+JOINS = ("\n", ", ", "")
 BAD_TUPLES = ((), ("a", "b", "c"), ("a", "b", "c", "d", "e"), ("a", "b", "c", "d", "e", "f", "g"))
 CALL_TIMEOUT = 10.0
 
